@@ -216,6 +216,11 @@ CATALOGUE = [
 """, note="the original defect (fixed in /repo): a synced palette refreshes its accessors only; make_report() "
           "and Palette.get_color() keep the formatters of the previous global configuration"),
     # ------------------------------------------------------------------ C08
+    dict(id="m08_result_operand_via_str", prop="C08", file="ak/color.py",
+         old="        elif hasattr(other, 'get_ch_text'):\n",
+         new="        elif hasattr(other, 'get_ch_text_'):\n",
+         note="the original defect (fixed in /repo): a CHTextResult operand is converted with str(), its escape "
+              "sequences become visible characters"),
     dict(id="m08_sibling_subclass_eq", prop="C08", file="ak/color.py",
          old="        if isinstance(other, CHText):\n            # (any CHText: objects of different derived classes are texts too)",
          new="        if isinstance(other, type(self)):\n            # (any CHText: objects of different derived classes are texts too)",
